@@ -448,6 +448,9 @@ def plan_xo(pid, tr, sd):
                 jobs.append((pid, "c09", label, t, gens[0], dict(pls[(i + k + 1) % 2], copy_to=where, src="view")))
                 if t[0] in ("struct", "array") and has_kind(t, ("struct", "array")):
                     jobs.append((pid, "c09n", label, t, gens[0], dict(pls[(i + k) % 2], copy_to=where)))
+            if wmode.has_string(t) and t[0] != "uref":
+                for k, where in enumerate(("same", "other", "context") if tr == "thorough" else (("same", "other", "context")[i % 3],)):
+                    jobs.append((pid, "c09", label, t, gens[0], dict(pls[(i + k) % 2], copy_to=where, src="shortened")))
             if tr == "thorough":
                 jobs.append((pid, "c09", label, t, gens_more[3], dict(pls[0], copy_to="other")))
                 jobs.append((pid, "c09", label, t, gens_more[2], dict(pls[1], copy_to="same")))
@@ -480,7 +483,7 @@ def plan_xo(pid, tr, sd):
             if wmode.has_string(t):
                 ms.append("string")
             if has_kind(t, ("array",)):
-                ms += ["array_len", "bigger_items", "array_shape_instance", "negative_dim", "update_int", "ndarray_extra_axis"]
+                ms += ["array_len", "array_bad_item", "bigger_items", "array_shape_instance", "negative_dim", "update_int", "ndarray_extra_axis"]
             if has_kind(t, ("uref",)):
                 ms.append("union")
             for k, mis in enumerate(ms):
@@ -514,8 +517,12 @@ def plan_xo(pid, tr, sd):
                 [("bind_foreign", 0, 0), ("bind_null", 1), ("grow",)],
                 [("bind_null", 0), ("bind_value", 0, 0), ("bind_existing", 0, 1)],
             ]
+            # zero-length targets (falsy objects) and bound union-reference objects as the value
+            hs.append([("bind_existing", 0, 1, "empty"), ("bind_value", 1, 0, "empty"), ("bind_foreign", 0, 0, "empty"), ("grow",)])
+            hs.append([("bind_existing", 1, 0, "empty"), ("bind_uref_instance", 0, 0), ("bind_uref_instance", 1, 1), ("bind_null", 0)])
             if tr == "thorough":
                 hs += [[("bind_existing", k, 1), ("bind_foreign", k + 1, 0), ("alloc_until_growth",)] for k in range(2)]
+                hs += [[("bind_value", k, k, "empty"), ("bind_uref_instance", k, 1 - k), ("grow",), ("bind_existing", k + 1, k, "empty")] for k in range(2)]
             for k, h in enumerate(hs):
                 many = t[0] == "array" or sum(1 for _ in wmode.ref_slots(t, sample_value(t, gens[0]))) > 3
                 for pl in ([pls[0], pls[4]] if tr == "quick" or many else [pls[0], pls[4], pls[5]]):
